@@ -70,6 +70,19 @@ def classify(msg):
 VERUS_TOOLCHAIN = os.environ.get('VERIF_VERUS_TOOLCHAIN', '1.98.1-x86_64-unknown-linux-gnu')
 
 
+_CB = None
+
+
+def _closure_baseline():
+    global _CB
+    if _CB is None:
+        try:
+            _CB = json.load(open(os.path.join(VERIF, 'baseline', 'closures.json')))
+        except (OSError, ValueError):
+            _CB = {}
+    return _CB
+
+
 def build_externs(g, repo):
     """`//@ extern <package> <crate>...`: build the named dependency crates of <package> offline, from the repo's
     Cargo.lock, with the toolchain Verus itself uses (so the rlibs are loadable by it) into the work directory and
@@ -311,6 +324,21 @@ def run_unit(unit, repo='/repo', tier='quick', rlimit=30, seed=None, canaries=Tr
             if o['obligation'] not in seen:
                 seen.add(o['obligation'])
                 res.failures.append(o)
+    # Closures are the one construct Verus takes without being able to see through it (no call_ensures unless the
+    # contract supplies one).  When a function under contract now holds MORE closures than it did on the pinned tree
+    # (baseline/closures.json) and one of its obligations fails, the proof did not carry over to the rewritten body:
+    # that is undecided, not a violation - `x.map(|c| c.loc)` in place of an `if let` must not raise an alarm.
+    base = _closure_baseline().get(unit, {})
+    now = {f['fn']: f.get('closures', 0) for f in g.functions}
+    kept = []
+    for o in res.failures:
+        fnq = o.get('fn')
+        if fnq in now and now[fnq] > base.get(fnq, 0):
+            res.trouble.append('proof did not carry over: %s now goes through %d closure(s) (pinned tree: %d) that Verus has no '
+                               'specification for; %s is undecided, not a violation' % (fnq, now[fnq], base.get(fnq, 0), o['obligation']))
+        else:
+            kept.append(o)
+    res.failures = kept
     for (fn, name, ok, detail, props, src) in g.syntactic:
         if not ok:
             res.failures.append({'obligation': ('%s/%s/%s' % (unit, fn, name)).replace(' ', '_'), 'unit': unit, 'fn': fn, 'kind': 'census',
